@@ -112,14 +112,22 @@ def bad_set(L):
     return bad, (int(hb[0][2]) if hb else None), r
 
 
+L_root_placeholder = "{root}"
+
+
 def job(j):
     cfg, saved, dmgs, shape, cmdspec, seed = j
-    cmd, adv, plan, covers_parity = cmdspec
+    cmd, adv, plan, covers_parity = cmdspec[:4]
+    # 5th element "short": every pread of every file under the lab answers short (half of the bytes asked for): an ordinary answer of
+    # the OS that must change nothing in the verdicts
+    env = {"VP_FAIL": "%s/*:pread:0+:-1" % L_root_placeholder} if len(cmdspec) > 4 and cmdspec[4] == "short" else None
     L = X.materialize(cfg, saved, seed)
     cfg = L.cfg
+    if env:
+        env = {"VP_FAIL": env["VP_FAIL"].replace(L_root_placeholder, L.root)}
     c = L.content()
     viols = []
-    where = repr((dmgs, shape, cmd))
+    where = repr((dmgs, shape, cmd) + (("short-reads",) if env else ()))
     for dmg in dmgs:
         apply_damage(L, c, dmg, shape if dmg[0] == "data" or shape in SHAPES_PARITY else "whole")
     want_data = {(d[2], d[1]) for d in dmgs if d[0] == "data"}
@@ -129,7 +137,7 @@ def job(j):
         # a marking scrub first (its own verdict is checked by the 'full' command entry), then -p bad
         m = L.run("scrub", "-p", "full")
         c = L.content()
-    res = L.run(cmd[0], *cmd[1:])
+    res = L.run(cmd[0], *cmd[1:], env=env)
     got_data, got_par = error_sets(res, cfg)
     # stripes with pending (not yet synced) blocks: their parity legitimately differs from the data now on disk and scrub / check say
     # so (an error that is neither silent nor marked); the statement is about the synced blocks and the fully synced stripes
@@ -219,6 +227,12 @@ def run(ctx):
                     if dmg[0] == "parity" and not cmdspec[3]:
                         shape_ok = True     # audit-only must stay silent on parity damage
                     jobs.append((cfgx, saved, (dmg,), shape, cmdspec, ctx.seed))
+        # the same under short reads (undamaged array and every single damage of the first shape; full check and full scrub)
+        for cmdspec in (COMMANDS[1], COMMANDS[2]):
+            sc = cmdspec + ("short",)
+            jobs.append((cfgx, saved, (), "whole", sc, ctx.seed))
+            for dmg in dl:
+                jobs.append((cfgx, saved, (dmg,), "flip0", sc, ctx.seed))
         if tier == "thorough":
             for a, b in itertools.combinations(dl, 2):
                 if a[2] == b[2]:
@@ -257,7 +271,7 @@ def replay(r):
         saved = L0.save()
         cfgx = L0.cfg
     cs = r["command"]
-    out = job((cfgx, saved, tuple(tuple(d) for d in r["damages"]), r["shape"], (tuple(cs[0]), cs[1], cs[2], cs[3]), 0))
+    out = job((cfgx, saved, tuple(tuple(d) for d in r["damages"]), r["shape"], (tuple(cs[0]), cs[1], cs[2], cs[3]) + tuple(cs[4:]), 0))
     for v in out["viols"]:
         print("  ", v)
     return not out["viols"]
